@@ -529,27 +529,34 @@ pub fn run_c08(o: &crate::Opts) {
         // failure injected at every statement position k of a small program, or no failure
         let n = rng.range(1, 6) as usize;
         let k = rng.below(n as u64 + 1) as usize; // k == n: no failure
+        // the failing statement is any PC-relative form (CALL needs the stack feature)
+        let forms = ["ld r1 far", "ldi r2 far", "lea r3 far", "st r4 far", "sti r5 far", "br far", "brnz far", "jsr far", "call far"];
+        let form = *rng.pick(&forms);
         let mut s = String::new();
         for j in 0..n {
             if j == k {
-                s.push_str("ld r1 far\n");
+                s.push_str(form);
+                s.push('\n');
             } else {
                 s.push_str("add r0 r0 #1\n");
             }
         }
-        s.push_str("halt\n.blkw #300\nfar .fill x7\n");
+        s.push_str("halt\n.blkw #1100\nfar .fill x7\n");
+        let force_stack = form.starts_with("call") && k < n;
         let src = if i % 5 == 4 { gen_src(&mut rng).src } else { s };
         let dest = match rng.below(5) {
             0 => "absent".to_string(),
             1 | 2 => {
-                let len = rng.below(9) as usize;
+                // shorter and (much) longer than the object file that a successful compile writes:
+                // a destination that is not truncated keeps a stale tail
+                let len = if rng.chance(1, 2) { rng.below(9) as usize } else { 700 + rng.below(1500) as usize };
                 let bytes: Vec<u8> = (0..len).map(|_| rng.next() as u8).collect();
                 format!("pre:{}", hex(&bytes))
             }
             3 => "devfull".to_string(),
             _ => "nodir".to_string(),
         };
-        let stack = rng.chance(1, 3);
+        let stack = (force_stack && i % 5 != 4) || rng.chance(1, 3);
         let obs = obs_c08(&dir, &src, stack, &dest);
         *kinds.entry(format!("{}:{}", dest.split(':').next().unwrap(), obs.split(' ').next().unwrap())).or_default() += 1;
         if samples.len() < 3 && rng.chance(1, 8) {
